@@ -25,9 +25,16 @@ from pyvc import contract as C  # noqa: E402
 from pyvc.run import load_all, verify_many, verify_one  # noqa: E402
 
 
+# the tree under verification: /repo, or the tree named by HED_REPO (used to evaluate seeded changes on a scratch worktree: the
+# extractor reads it, and the concrete harness / workloads import `hed` from it instead of the editable install of /repo)
+_REPO = os.environ.get("HED_REPO", "/repo")
+SUBPATH = VERIF if os.path.realpath(_REPO) == "/repo" else _REPO + os.pathsep + VERIF
+OUT = os.environ.get("VERIF_OUT", VERIF)      # where evidence/ and replays/ are written
+
+
 def conc(req, timeout=900):
     p = subprocess.run([VENV_PY, "-m", "rt.conc"], input=json.dumps(req), capture_output=True, text=True, cwd=VERIF,
-                       timeout=timeout, env=dict(os.environ, PYTHONPATH=VERIF, PYTHONDONTWRITEBYTECODE="1"))
+                       timeout=timeout, env=dict(os.environ, PYTHONPATH=SUBPATH, PYTHONDONTWRITEBYTECODE="1"))
     if p.returncode != 0 or not p.stdout.strip():
         return {"error": (p.stderr or "no output")[-800:]}
     try:
@@ -59,7 +66,7 @@ def match_known(known, prop, clause, case):
 
 
 def write_replay(prop, name, payload):
-    d = os.path.join(VERIF, "replays")
+    d = os.path.join(OUT, "replays")
     os.makedirs(d, exist_ok=True)
     path = os.path.join(d, f"{prop}_{name}.json".replace("/", "_").replace(" ", "_").replace(":", "_").replace("#", "_"))
     with open(path, "w") as f:
@@ -218,7 +225,7 @@ def main():
     rt_mod = os.path.join(VERIF, "rt", f"{prop.lower()}.py")
     if os.path.exists(rt_mod) and not a.no_rt:
         p = subprocess.run([VENV_PY, "-m", f"rt.{prop.lower()}", "--tier", tier, "--seed", str(seed)], capture_output=True, text=True,
-                           cwd=VERIF, env=dict(os.environ, PYTHONPATH=VERIF, PYTHONDONTWRITEBYTECODE="1"),
+                           cwd=VERIF, env=dict(os.environ, PYTHONPATH=SUBPATH, PYTHONDONTWRITEBYTECODE="1"),
                            timeout=3 * 3600)
         try:
             rt_info = json.loads(p.stdout.strip().splitlines()[-1])
@@ -288,8 +295,8 @@ def main():
     ev = {"property_id": prop, "tier": tier, "seed": seed, "level": level, "coverage": cov,
           "assumptions": sorted(assumptions) + (rt_info.get("assumptions", []) if rt_info else []),
           "wall_s": round(time.time() - t0, 2), "violations": len(violations)}
-    os.makedirs(os.path.join(VERIF, "evidence"), exist_ok=True)
-    with open(os.path.join(VERIF, "evidence", f"{prop}.json"), "w") as f:
+    os.makedirs(os.path.join(OUT, "evidence"), exist_ok=True)
+    with open(os.path.join(OUT, "evidence", f"{prop}.json"), "w") as f:
         json.dump(ev, f, indent=1, default=str)
 
     for line in known_lines:
@@ -328,7 +335,7 @@ def do_replay(prop, path):
         return 1
     if payload.get("kind") == "bounded-workload":
         p = subprocess.run([VENV_PY, "-m", f"rt.{prop.lower()}", "--replay", path], cwd=VERIF,
-                           env=dict(os.environ, PYTHONPATH=VERIF))
+                           env=dict(os.environ, PYTHONPATH=SUBPATH))
         return p.returncode
     return 3
 
